@@ -1,5 +1,7 @@
 import Exetera.Props.C08
 import Exetera.Lemmas.GenKernelsSpans
+import Exetera.Lemmas.GenKernelsSpansMinMax
+import Exetera.Lemmas.GenKernelsSpansIndex
 /-!
   C08 over the TRANSLATED kernels.  `Gen/Kernels.lean` is regenerated from exetera/core/operations.py by
   tools/translate_njit.py on every run; the theorems below are therefore re-checked against what the source says NOW.
@@ -60,5 +62,74 @@ theorem gen_apply_spans_last_eq (sp : List Nat) (src : List Int) (h : Wellformed
 
 example : apply_spans_last.run [0, 2, 3] [7, 8, 9] none = .ok [8, 9] := rfl
 example : ∀ x ∈ ([0, 2, 3] : List Nat).tail, 0 < x := by decide
+
+
+/-! ## apply_spans_min / apply_spans_max -/
+
+theorem gen_apply_spans_min_refines (sp : List Nat) (src : List Int) :
+    Sim (apply_spans_min.run (ints sp) src none) (applySpansMin sp src) := apply_spans_min_refines sp src
+
+theorem gen_apply_spans_max_refines (sp : List Nat) (src : List Int) :
+    Sim (apply_spans_max.run (ints sp) src none) (applySpansMax sp src) := apply_spans_max_refines sp src
+
+/-- min / max = minimum / maximum over exactly the rows of each span, computed by the translated kernels (both loops
+    finish, no subscript out of range) -/
+theorem gen_apply_spans_min_eq (sp : List Nat) (src : List Int) (h : Wellformed sp src.length) :
+    ∃ r, apply_spans_min.run (ints sp) src none = .ok r ∧ r.map some = (pairs sp).map (fun p => (rowsOf src p).min?) := by
+  obtain ⟨r, hr, hs⟩ := C08.apply_spans_min_eq sp src h
+  exact ⟨r, (apply_spans_min_refines sp src).ok_right hr, hs⟩
+
+theorem gen_apply_spans_max_eq (sp : List Nat) (src : List Int) (h : Wellformed sp src.length) :
+    ∃ r, apply_spans_max.run (ints sp) src none = .ok r ∧ r.map some = (pairs sp).map (fun p => (rowsOf src p).max?) := by
+  obtain ⟨r, hr, hs⟩ := C08.apply_spans_max_eq sp src h
+  exact ⟨r, (apply_spans_max_refines sp src).ok_right hr, hs⟩
+
+example : apply_spans_min.run [0, 2, 5] [3, 1, 4, 1, 5] none = .ok [1, 1] ∧
+    apply_spans_max.run [0, 2, 5] [3, 1, 4, 1, 5] none = .ok [3, 5] := ⟨rfl, rfl⟩
+example : Wellformed [0, 2, 5] [3, 1, 4, 1, 5].length := ⟨by decide, rfl, rfl⟩
+
+/-! ## apply_spans_index_of_first / _last / _min / _max -/
+
+theorem gen_apply_spans_index_of_first_refines (sp : List Nat) :
+    Sim (apply_spans_index_of_first.run (ints sp) none) (applySpansIndexOfFirst sp) := apply_spans_index_of_first_refines sp
+
+theorem gen_apply_spans_index_of_last_refines (sp : List Nat) :
+    Sim (apply_spans_index_of_last.run (ints sp) none) (applySpansIndexOfLast sp) := apply_spans_index_of_last_refines sp
+
+theorem gen_apply_spans_index_of_min_refines (sp : List Nat) (src : List Int) :
+    Sim (apply_spans_index_of_min.run (ints sp) src none) (applySpansIndexOfMin sp src) :=
+  apply_spans_index_of_min_refines sp src
+
+theorem gen_apply_spans_index_of_max_refines (sp : List Nat) (src : List Int) :
+    Sim (apply_spans_index_of_max.run (ints sp) src none) (applySpansIndexOfMax sp src) :=
+  apply_spans_index_of_max_refines sp src
+
+/-- index_of_first / index_of_last = first / last row number of each span, computed by the translated kernels -/
+theorem gen_apply_spans_index_of_first_eq (sp : List Nat) (hne : sp.isEmpty = false) :
+    apply_spans_index_of_first.run (ints sp) none = .ok ((pairs sp).map (fun p => (p.1 : Int))) :=
+  (apply_spans_index_of_first_refines sp).ok_right (C08.apply_spans_index_of_first_eq sp hne)
+
+theorem gen_apply_spans_index_of_last_eq (sp : List Nat) (hne : sp.isEmpty = false) :
+    apply_spans_index_of_last.run (ints sp) none = .ok ((pairs sp).map (fun p => (p.2 : Int) - 1)) :=
+  (apply_spans_index_of_last_refines sp).ok_right (C08.apply_spans_index_of_last_eq sp hne)
+
+example : apply_spans_index_of_first.run [0, 2, 3] none = .ok [0, 2] ∧
+    apply_spans_index_of_last.run [0, 2, 3] none = .ok [1, 2] := ⟨rfl, rfl⟩
+
+/-- index_of_min / index_of_max = row number of the FIRST minimal / maximal row of each span -/
+theorem gen_apply_spans_index_of_min_eq (sp : List Nat) (src : List Int) (h : Wellformed sp src.length) :
+    ∃ r, apply_spans_index_of_min.run (ints sp) src none = .ok r ∧
+      r.map some = (pairs sp).map (fun p => (argminOf (rowsOf src p)).map (fun k => ((p.1 + k : Nat) : Int))) := by
+  obtain ⟨r, hr, hs⟩ := C08.apply_spans_index_of_min_eq sp src h
+  exact ⟨r, (apply_spans_index_of_min_refines sp src).ok_right hr, hs⟩
+
+theorem gen_apply_spans_index_of_max_eq (sp : List Nat) (src : List Int) (h : Wellformed sp src.length) :
+    ∃ r, apply_spans_index_of_max.run (ints sp) src none = .ok r ∧
+      r.map some = (pairs sp).map (fun p => (argmaxOf (rowsOf src p)).map (fun k => ((p.1 + k : Nat) : Int))) := by
+  obtain ⟨r, hr, hs⟩ := C08.apply_spans_index_of_max_eq sp src h
+  exact ⟨r, (apply_spans_index_of_max_refines sp src).ok_right hr, hs⟩
+
+example : apply_spans_index_of_min.run [0, 2, 5] [3, 1, 4, 1, 1] none = .ok [1, 3] ∧
+    apply_spans_index_of_max.run [0, 2, 5] [3, 3, 4, 5, 5] none = .ok [0, 3] := ⟨rfl, rfl⟩
 
 end Exetera.Props.C08Gen
